@@ -2,8 +2,12 @@ package main
 
 import (
 	"go/ast"
+	"go/parser"
 	"go/token"
+	"os"
+	"path/filepath"
 	"strconv"
+	"strings"
 )
 
 func init() { extractors = append(extractors, extractRescan) }
@@ -392,47 +396,137 @@ func extractRescan() {
 		}
 	}
 
-	// ---- rescan: blockRetryInterval --------------------------------------
+	// ---- rescan: retry interval, BY VALUE -----------------------------------
+	// The duration handed to time.After(..) where blockRetrySignal is armed, constant-folded: literals, time.<Unit>,
+	// * + and time.Duration(..) conversions, identifiers resolved through the locals of rescan() and the package-level
+	// const/var declarations of the root package (any file).  Where and under which name it is written does not matter.
 	retryIntervalMs := 0
 	if rescan != nil {
-		var val ast.Expr
-		found := false
-		ast.Inspect(rescan.Body, func(x ast.Node) bool {
-			switch v := x.(type) {
-			case *ast.ValueSpec:
-				for i, n := range v.Names {
-					if n.Name == "blockRetryInterval" && !found {
-						found = true
-						if len(v.Values) == len(v.Names) {
+		units := map[string]int64{"time.Nanosecond": 1, "time.Microsecond": 1e3, "time.Millisecond": 1e6,
+			"time.Second": 1e9, "time.Minute": 60e9, "time.Hour": 3600e9}
+		localDecl := func(name string) ast.Expr {
+			var val ast.Expr
+			ast.Inspect(rescan.Body, func(x ast.Node) bool {
+				switch v := x.(type) {
+				case *ast.ValueSpec:
+					for i, n := range v.Names {
+						if n.Name == name && val == nil && len(v.Values) == len(v.Names) {
 							val = v.Values[i]
 						}
 					}
-				}
-			case *ast.AssignStmt:
-				for i, n := range v.Lhs {
-					if v.Tok == token.DEFINE && isIdent(n, "blockRetryInterval") && !found {
-						found = true
-						if len(v.Rhs) == len(v.Lhs) {
+				case *ast.AssignStmt:
+					for i, n := range v.Lhs {
+						if v.Tok == token.DEFINE && isIdent(n, name) && val == nil && len(v.Rhs) == len(v.Lhs) {
 							val = v.Rhs[i]
 						}
 					}
 				}
-			}
-			return true
-		})
-		ok := false
-		if be, isBin := val.(*ast.BinaryExpr); val != nil && isBin && be.Op == token.MUL {
-			for _, p := range [][2]ast.Expr{{be.X, be.Y}, {be.Y, be.X}} {
-				lit, isLit := p[1].(*ast.BasicLit)
-				if src(p[0]) == "time.Millisecond" && isLit && lit.Kind == token.INT {
-					if n, err := strconv.ParseUint(lit.Value, 0, 31); err == nil {
-						retryIntervalMs, ok = int(n), true
+				return true
+			})
+			return val
+		}
+		var pkgFiles []*ast.File
+		pkgDecl := func(name string) ast.Expr {
+			if pkgFiles == nil {
+				pkgFiles = []*ast.File{f}
+				ents, _ := os.ReadDir(repo)
+				for _, e := range ents {
+					n := e.Name()
+					if e.IsDir() || !strings.HasSuffix(n, ".go") || strings.HasSuffix(n, "_test.go") || n == file {
+						continue
+					}
+					if pf, err := parser.ParseFile(fset, filepath.Join(repo, n), nil, 0); err == nil &&
+						pf.Name.Name == f.Name.Name {
+						pkgFiles = append(pkgFiles, pf)
 					}
 				}
 			}
+			for _, pf := range pkgFiles {
+				for _, d := range pf.Decls {
+					gd, ok := d.(*ast.GenDecl)
+					if !ok || (gd.Tok != token.CONST && gd.Tok != token.VAR) {
+						continue
+					}
+					for _, sp := range gd.Specs {
+						vs := sp.(*ast.ValueSpec)
+						for i, n := range vs.Names {
+							if n.Name == name && len(vs.Values) == len(vs.Names) {
+								return vs.Values[i]
+							}
+						}
+					}
+				}
+			}
+			return nil
 		}
-		if !ok {
-			fail("%s: rescan: declaration blockRetryInterval = time.Millisecond * <int literal>", file)
+		var eval func(e ast.Expr, depth int) (int64, bool)
+		eval = func(e ast.Expr, depth int) (int64, bool) {
+			if e == nil || depth > 8 {
+				return 0, false
+			}
+			switch v := e.(type) {
+			case *ast.ParenExpr:
+				return eval(v.X, depth+1)
+			case *ast.BasicLit:
+				if v.Kind == token.INT {
+					n, err := strconv.ParseInt(v.Value, 0, 64)
+					return n, err == nil
+				}
+			case *ast.SelectorExpr:
+				u, ok := units[src(v)]
+				return u, ok
+			case *ast.BinaryExpr:
+				a, ok1 := eval(v.X, depth+1)
+				b, ok2 := eval(v.Y, depth+1)
+				if ok1 && ok2 {
+					switch v.Op {
+					case token.MUL:
+						return a * b, true
+					case token.ADD:
+						return a + b, true
+					case token.QUO:
+						if b != 0 {
+							return a / b, true
+						}
+					}
+				}
+			case *ast.CallExpr:
+				if src(v.Fun) == "time.Duration" && len(v.Args) == 1 {
+					return eval(v.Args[0], depth+1)
+				}
+			case *ast.Ident:
+				if d := localDecl(v.Name); d != nil {
+					return eval(d, depth+1)
+				}
+				return eval(pkgDecl(v.Name), depth+1)
+			}
+			return 0, false
+		}
+		// every time.After(..) whose result arms blockRetrySignal
+		var durs []ast.Expr
+		ast.Inspect(rescan.Body, func(x ast.Node) bool {
+			as, ok := x.(*ast.AssignStmt)
+			if !ok || len(as.Lhs) != 1 || len(as.Rhs) != 1 || !isIdent(as.Lhs[0], "blockRetrySignal") {
+				return true
+			}
+			if c, ok := as.Rhs[0].(*ast.CallExpr); ok && src(c.Fun) == "time.After" && len(c.Args) == 1 {
+				durs = append(durs, c.Args[0])
+			}
+			return true
+		})
+		ok := len(durs) > 0
+		var ns int64 = -1
+		for _, d := range durs {
+			v, good := eval(d, 0)
+			if !good || (ns >= 0 && v != ns) {
+				ok = false
+			}
+			ns = v
+		}
+		if ok && ns > 0 && ns%1e6 == 0 {
+			retryIntervalMs = int(ns / 1e6)
+		} else {
+			fail("%s: rescan: blockRetrySignal = time.After(<duration that folds to one whole number of milliseconds>)", file)
 		}
 	}
 
@@ -505,7 +599,7 @@ func extractRescan() {
 	emit("updateAppendsWatchList", updateAppendsWatchList,
 		"updateFilter appends to each of ro.watchAddrs, ro.watchInputs and ro.watchList")
 	l.def("retryIntervalMs", "Nat", strconv.Itoa(retryIntervalMs),
-		"blockRetryInterval of rescan, in milliseconds (declared as time.Millisecond * n)")
+		"the retry interval of rescan in milliseconds: the value of the duration every blockRetrySignal = time.After(..) is armed with, constant-folded wherever it is declared")
 	shape["retryIntervalMs"] = retryIntervalMs
 	emit("connectedCurAdvanceAfterNotify", connectedCurAdvanceAfterNotify,
 		"in handleBlockConnected the last rs.curHeader = header and rs.curStamp = newStamp both follow the rs.notifyBlockWithFilter(..) call")
